@@ -541,6 +541,20 @@ void Explore(const Program &prog, Driver &drv, const Options &opt, FILE *out, St
     st.execs++;
     return;
   }
+  if (opt.mode == "psched") {
+    // every program line carries its own schedule (header parameter sched=1,2,...): one execution each
+    std::vector<uint8_t> pre;
+    for (const auto &par : prog.params) {
+      if (par.rfind("sched=", 0) != 0) continue;
+      std::istringstream is(par.substr(6));
+      std::string tok;
+      while (std::getline(is, tok, ',')) if (!tok.empty()) pre.push_back(static_cast<uint8_t>(atoi(tok.c_str())));
+    }
+    auto r = RunOnce(prog, drv, pre, opt, 0);
+    Emit(out, prog, idx++, r);
+    st.execs++;
+    return;
+  }
   if (opt.mode == "random") {
     for (long k = 0; k < opt.max_exec; ++k) {
       auto r = RunOnce(prog, drv, {}, opt, static_cast<uint64_t>(opt.seed) * 1000003ULL + k * 7919ULL + std::hash<std::string>{}(prog.name));
